@@ -249,8 +249,16 @@ func checkCase(c Case) (out evid.Outcome) {
 						n = op.V // io.Copy reports what it handed over
 					}
 					if op.V == 0 {
-						// nothing to copy: io.Copy never calls the writer, so nothing is triggered
-						if !wasWritten {
+						// nothing to copy: io.Copy never calls Write; a wrapper with a
+						// ReadFrom of its own is called all the same and may commit the
+						// response (net/http's does): what happened is taken over
+						sent := false
+						for _, l := range s.log {
+							if strings.HasPrefix(l, "WH") {
+								sent = true
+							}
+						}
+						if !wasWritten && !sent {
 							mStatus, triggered, wantRuns = 0, triggeredBefore, wantRunsBefore
 						}
 					}
@@ -385,7 +393,14 @@ func checkCase(c Case) (out evid.Outcome) {
 		if prior {
 			for k := 0; k < c.PriorHooks; k++ {
 				k := k
-				ctx.ResponseWriter().Before(func(flamego.ResponseWriter) { hookRuns = append(hookRuns, 9000+k) })
+				ctx.ResponseWriter().Before(func(flamego.ResponseWriter) {
+					// (a framework may finish a response nobody wrote by itself and
+					// run the function then: it only counts when it runs during the
+					// request under test)
+					if !prior {
+						hookRuns = append(hookRuns, 9000+k)
+					}
+				})
 			}
 			return
 		}
